@@ -13,7 +13,7 @@ from typing import Generic, TypeVar, cast
 
 import numpy
 import xarray
-from shapely.geometry import Polygon, box
+from shapely.geometry import MultiPolygon, Polygon, box
 from shapely.geometry.base import BaseGeometry
 
 from emsarray import masking, utils
@@ -455,9 +455,14 @@ class CFGrid1D(CFGrid[CFGrid1DTopology]):
         return cast(numpy.ndarray, centres)
 
     @cached_property
-    def geometry(self) -> Polygon:
+    def geometry(self) -> Polygon | MultiPolygon:
         # As CFGrid1D is axis aligned,
-        # the geometry can be constructed from the bounds.
+        # the geometry can be constructed from the bounds
+        # as long as the cells leave no gaps between them.
+        for bounds in [self.topology.longitude_bounds, self.topology.latitude_bounds]:
+            values = bounds.values
+            if not numpy.array_equal(values[1:, 0], values[:-1, 1]):
+                return super().geometry
         return box(*self.bounds)
 
 
